@@ -1270,6 +1270,14 @@ func situation(s *state.Store, op *Op) SitInfo {
 }
 
 func (si *SitInfo) add(s *state.Store, op *Op) {
+	// a node registered under the ID of a node with another name: ensureNodeTxn deletes that node
+	// first (rename by ID), with all its services and checks
+	if (op.Kind == "register" || op.Kind == "node") && op.NodeID != "" {
+		if _, other, _ := s.GetNodeID(types.NodeID(op.NodeID), nil, ""); other != nil && !strings.EqualFold(other.Node, op.Node) {
+			si.nodeTouched(s, other.Node, true)
+			si.Stale = append(si.Stale, staleRefs(s, other.Node, func(*structs.HealthCheck) bool { return true })...)
+		}
+	}
 	switch op.Kind {
 	case "svc":
 		si.svcWrite(s, op.Node, op.Svc)
